@@ -6,6 +6,9 @@ import Oracle.Util
         v ::= s<hex> | S<len>:<seed> | b0 | b1 | i<int64> | u<uint64> | f<hex16> | z (null) | - (absent)
         seeks ::= n;n;... | -
       → col=<hex> size=<n|none> de=<count> dict=<hex|-> raw=[r;..] dct=[r;..]|-      r ::= <hex> | err:<e> | panic
+   tlv mix <v,v,...> <seeks>             one column through the writer, the flush-time marking + type consolidation,
+        v ::= i<int64> | s<hex, class mixOk> | z | -        written as zstd block, read with the stored hint
+      → mixed=<0|1> size=<n> col=<hex> raw=[r;..]
    tlv num <kind> <hexbits>              a (reader-only) numeric record: framing + GetCvalFromRec
       → enc=<hex> len=<n> dec=<cval>
    tlv dec <hex>                         GetCvalFromRec on arbitrary bytes → <cval> end=<n> | err:<e> | panic
@@ -113,6 +116,41 @@ def col (args : List String) : String :=
     | _, _, _ => "bad-op"
   | _ => "bad-op"
 
+def mixByteOk (b : Nat) : Bool := isDigit b || b == 45 || (97 ≤ b && b ≤ 122)
+
+/-- value class of op `mix` (see Model/Tlv.lean, consolidation): int64, null/absent, and strings of at most 40
+bytes over [a-z0-9-] that are either empty, or start with a letter other than i/n (neither ParseInt nor
+ParseFloat accepts them), or consist of [0-9-] only and are not -?[0-9]{19,} -/
+def mixOk : Option Val → Bool
+  | none => true
+  | some .backfill => true
+  | some (.num .i64 _) => true
+  | some (.str s) =>
+    let ds := if s.head? == some 45 then s.drop 1 else s
+    s.all mixByteOk && s.length ≤ 40 &&
+      (match s with
+       | [] => true
+       | c :: _ =>
+         if 97 ≤ c && c ≤ 122 then c != 105 && c != 110
+         else s.all (fun b => isDigit b || b == 45) && !(ds.length > 18 && ds.all isDigit))
+  | _ => false
+
+def mix (args : List String) : String :=
+  match args with
+  | [vs, sk] =>
+    match (vs.splitOn ",").mapM parseVal, parseSeeks sk with
+    | some vals, some seeks =>
+      if vals.length > 60000 ∨ !vals.all mixOk then "bad-op" else
+      let st := fillCol cardLimit vals
+      if st.buf.isEmpty then "bad-op" else
+      let mixed := isMixed vals
+      let stored := storedVals mixed (vals.map (fun v => v.getD .backfill))
+      let buf := encCol stored
+      let hint := storedHint mixed st
+      s!"mixed={if mixed then 1 else 0} size={hint} col={bytesHex buf} raw={rawSeeks buf hint seeks}"
+    | _, _ => "bad-op"
+  | _ => "bad-op"
+
 def parseKind (s : String) : Option NumKind :=
   match s with
   | "u8" => some .u8 | "u16" => some .u16 | "u32" => some .u32 | "u64" => some .u64
@@ -211,6 +249,7 @@ def rts (args : List String) : String :=
 def handle (cmd : String) (args : List String) : Option String :=
   match cmd, args with
   | "tlv", "col" :: r => some (col r)
+  | "tlv", "mix" :: r => some (mix r)
   | "tlv", "num" :: r => some (num r)
   | "tlv", "dec" :: r => some (dec r)
   | "tlv", "raw" :: r => some (raw r)
